@@ -1,4 +1,5 @@
 import CssVerif.Lemmas.Encutils
+import CssVerif.Lemmas.EncutilsDoc
 /-!
 # C20 — encutils reports the document encoding by the documented precedence
 
@@ -441,6 +442,168 @@ theorem decl_stray_attribute_ignored :
     detectXML (cps "<?xml version=\"1.0\"?><x encoding=\"ascii\"/><?pi ?>") true = .ok (some (cps "utf-8")) ∧
     detectXML (cps "<?xml-stylesheet href=\"a\" encoding=\"pi\"?>") true = .ok (some (cps "utf-8")) := by
   decide
+
+/-! ## T20.5 — the document given as text or as bytes
+
+`Model/EncutilsDoc.lean` keeps `str` and `bytes` documents apart (`Doc`) and writes the `isinstance(x, bytes)` guard
+of each of the three consumers (`_getTextType`, `getMetaInfo`, `detectXMLEncoding`). The library stages that are not
+modelled (`L : Lib`: `html.parser`, `email.message.Message`) are arbitrary functions of what the code hands them. -/
+
+/-- the second layer is the first one on the decoded document: every theorem of T20.1–T20.4 above speaks about
+`str` and `bytes` documents alike, with the meta stage computed from what `html.parser` reports (T20.6) -/
+theorem doc_layer_spec (L : Lib) (r : Option RespD) (text : Option Doc) (t : Option Cps) :
+    getEncodingInfoD L r text t =
+      getEncodingInfo (r.map RespD.head) (text.map Doc.asText)
+        (metaRawOf L (match effDoc r text with | .ok d => d.asText | .error _ => [])) t :=
+  getEncodingInfoD_eq L r text t
+
+/-- T20.5 `text_or_bytes`: a `bytes` document and the `str` document with the same values (its latin-1 decoding)
+get the same `EncodingInfo` — every field, the exception included — for every response, every behaviour of the
+library stages and every `tryEncodings` answer. No guard. -/
+theorem text_or_bytes (L : Lib) (r : Option RespD) (b : List UInt8) (t : Option Cps) :
+    getEncodingInfoD L r (some (.bytes b)) t = getEncodingInfoD L r (some (.text (latin1 b))) t := by
+  rw [getEncodingInfoD_eq, getEncodingInfoD_eq]; rfl
+
+/-- the same for a document that is read from the response (`text=None`): `read()` handing out `bytes` or `str` -/
+theorem text_or_bytes_body (L : Lib) (mt cs : Option Cps) (b : List UInt8) (t : Option Cps) :
+    getEncodingInfoD L (some ⟨mt, cs, some (.bytes b)⟩) none t =
+      getEncodingInfoD L (some ⟨mt, cs, some (.text (latin1 b))⟩) none t := by
+  rw [getEncodingInfoD_eq, getEncodingInfoD_eq]; rfl
+
+/-- read the other way round: a text below U+0100 and its latin-1 encoding -/
+theorem text_or_latin1_bytes (L : Lib) (r : Option RespD) (s : Cps) (t : Option Cps) (h : ∀ c ∈ s, c < 256) :
+    getEncodingInfoD L r (some (.bytes (latin1Enc s))) t = getEncodingInfoD L r (some (.text s)) t := by
+  rw [text_or_bytes, latin1_latin1Enc s h]
+
+example : (∀ c ∈ cps "<?xml version='1.0' encoding='É'?>", c < 256) := by decide
+
+/-- the three consumers one by one -/
+theorem consumers_text_or_bytes (L : Lib) (b : List UInt8) (incl : Bool) :
+    textTypeOfDoc (.bytes b) = textTypeOfDoc (.text (latin1 b)) ∧
+    detectXMLDoc (.bytes b) incl = detectXMLDoc (.text (latin1 b)) incl ∧
+    getMetaInfoDoc L (.bytes b) = getMetaInfoDoc L (.text (latin1 b)) := ⟨rfl, rfl, rfl⟩
+
+/-- the codec named at each of the five `isinstance(x, bytes)` guards of the source is latin-1 (regenerated table) -/
+theorem bytes_guards_latin1 : C20.decodeCodecs.length = 5 ∧ ∀ c ∈ C20.decodeCodecs, c = cps "latin-1" :=
+  ⟨by decide, decodeCodecs_latin1⟩
+
+/-- the XML sniffer looks at the first 2048 characters only: two documents that agree there are sniffed alike
+(also when it raises) -/
+theorem sniff_window (t u : Cps) (incl : Bool) (h : t.take 2048 = u.take 2048) :
+    detectXML t incl = detectXML u incl := detectXML_window t u incl h
+
+/-- bytes in ANY ASCII-transparent encoding (UTF-8, latin-1, …; `AsciiTransparent`): an all-ASCII document gets the
+same `EncodingInfo` as its text, for every media type (the meta stage included) -/
+theorem ascii_document_any_encoding (enc : Cps → List UInt8) (henc : AsciiTransparent enc) (L : Lib)
+    (r : Option RespD) (a : Cps) (t : Option Cps) (ha : IsAscii a) :
+    getEncodingInfoD L r (some (.bytes (enc a))) t = getEncodingInfoD L r (some (.text a)) t := by
+  have h : latin1 (enc a) = a := by
+    have := henc.prefix_kept a [] ha
+    simpa [henc.empty, latin1] using this
+  rw [text_or_bytes, h]
+
+/-- … and a document whose first 2048 characters are ASCII (what follows is arbitrary, so the bytes differ from the
+text's values) gets the same `EncodingInfo` whenever the meta stage is not consulted (every class except text/html and
+other text). For text/html and other text the answer depends on what `html.parser` makes of the differing tails,
+which is an input here: no statement. -/
+theorem ascii_head_any_encoding (enc : Cps → List UInt8) (henc : AsciiTransparent enc) (L : Lib)
+    (r : Option RespD) (a rest : Cps) (t : Option Cps) (ha : IsAscii a) (hl : 2048 ≤ a.length)
+    (hh : docClass (r.map RespD.head) (a ++ rest) ≠ .html) (ht : docClass (r.map RespD.head) (a ++ rest) ≠ .text) :
+    getEncodingInfoD L r (some (.bytes (enc (a ++ rest)))) t = getEncodingInfoD L r (some (.text (a ++ rest))) t := by
+  rw [text_or_bytes, henc.prefix_kept a rest ha, getEncodingInfoD_eq, getEncodingInfoD_eq]
+  exact (getEncodingInfo_window _ _ _ _ _ _ (take_of_prefix a rest _ 2048 hl) hh ht).symm
+
+/-- non-vacuity: UTF-8 and latin-1 are ASCII-transparent; an ASCII head of 2048 characters exists -/
+example : AsciiTransparent utf8 := utf8_transparent
+example : AsciiTransparent latin1Enc := latin1Enc_transparent
+example : IsAscii (List.replicate 2048 32) ∧ 2048 ≤ (List.replicate 2048 32).length := by
+  refine ⟨fun c hc => ?_, by rw [List.length_replicate]; exact Nat.le_refl _⟩
+  rw [List.eq_of_mem_replicate hc]; decide
+/-- the hypothesis on the head cannot be dropped (test): `é` in the declared name, UTF-8 bytes vs text -/
+example : detectXMLDoc (.bytes (utf8 (cps "<?xml version='1.0' encoding='é'?>"))) true ≠
+    detectXMLDoc (.text (cps "<?xml version='1.0' encoding='é'?>")) true := by decide
+
+/-! ## T20.6 — the HTML meta stage: which `<meta>` decides
+
+`metaScan` runs `_MetaHTMLParser.handle_starttag` over the start tags that `html.parser` reports. -/
+
+/-- T20.6 `meta_first_wins`: what `getMetaInfo` uses of `p.content_type` is the `content` (lower-cased) of the FIRST
+start tag that is a `<meta>` whose `http-equiv` — of the last attribute of that name, stripped, lower-cased — is
+`content-type` and whose `content` is not empty; nothing if there is no such tag. For every sequence of start tags. -/
+theorem meta_first_wins (evs : List StartTag) : used (metaScan evs) = specMetaScan evs := used_metaScan evs
+
+/-- later `<meta>` elements play no role, earlier ones that do not decide neither -/
+theorem meta_later_ignored (pre post : List StartTag) (e : StartTag) (hd : decides e = true)
+    (hpre : ∀ x ∈ pre, decides x = false) : used (metaScan (pre ++ e :: post)) = metaContent e := by
+  rw [used_metaScan, specMetaScan, List.find?_append]
+  have : pre.find? decides = none := by
+    rw [List.find?_eq_none]; intro x hx; simp [hpre x hx]
+  simp [this, List.find?_cons, hd]
+
+/-- no Content-Type meta is used iff no start tag decides -/
+theorem meta_absent_iff (evs : List StartTag) : used (metaScan evs) = none ↔ ∀ e ∈ evs, decides e = false := by
+  rw [used_metaScan, specMetaScan]
+  constructor
+  · intro h e he
+    cases hf : evs.find? decides with
+    | none => rw [List.find?_eq_none] at hf; simpa using hf e he
+    | some x =>
+      have hd := List.find?_some hf
+      simp only [hf, Option.bind_some] at h
+      simp [decides, h, truthy] at hd
+  · intro h
+    have : evs.find? decides = none := by
+      rw [List.find?_eq_none]; intro x hx; simp [h x hx]
+    simp [this]
+
+/-- the whole front of `getMetaInfo`: parser exception → raises; no deciding meta → `(None, None)`; otherwise the
+`Message` parameter parser is asked about the content of the first deciding meta -/
+theorem meta_stage_spec (L : Lib) (text : Cps) :
+    metaRawOf L text =
+      match L.html text with
+      | .error _ => .raises
+      | .ok evs =>
+        match specMetaScan evs with
+        | none => .absent
+        | some c =>
+          match L.msg c with
+          | .error _ => .raises
+          | .ok (mt, p) => .found mt p := metaRawOf_spec L text
+
+/-- end to end: when `getEncodingInfo` returns for a text/html or other text document, `meta_encoding` is the charset
+parameter (lower-cased) that `Message` reports for the content of the first deciding `<meta>` among the start tags that
+`html.parser` reports for the decoded document; for every other class it is `None` (the parser is not even run) -/
+theorem meta_encoding_spec (L : Lib) (r : Option RespD) (text : Option Doc) (t : Option Cps) (i : Info)
+    (h : getEncodingInfoD L r text t = .ok i) :
+    ∃ d, effDoc r text = .ok d ∧
+      i.metaEncoding = (match docClass (r.map RespD.head) d.asText with
+        | .html => metaCharset (metaRawOf L d.asText)
+        | .text => metaCharset (metaRawOf L d.asText)
+        | _ => none) := by
+  rw [getEncodingInfoD_eq] at h
+  obtain ⟨txt, h1, _, _, hM⟩ := sources_spec _ _ _ _ i h
+  cases text with
+  | some d =>
+    simp only [effText, Option.map_some, Except.ok.injEq] at h1; subst h1
+    exact ⟨d, rfl, hM⟩
+  | none =>
+    cases r with
+    | none => simp [effText] at h1
+    | some rr =>
+      obtain ⟨mt, cs, body⟩ := rr
+      refine ⟨body.getD (.text []), rfl, ?_⟩
+      have : txt = (body.getD (.text [])).asText := by
+        cases body <;> (simp [effText, RespD.head] at h1; rw [← h1]; rfl)
+      subst this
+      exact hM
+
+/-- non-vacuity and the shapes the stage has to cope with (tests): a value-less attribute, a second `http-equiv`
+attribute, an empty `content` that lets a later meta decide, upper-case names -/
+example : decides ⟨cps "meta", [(cps "http-equiv", some (cps " Content-Type ")), (cps "content", some (cps "text/html;charset=X"))]⟩ = true := by decide
+example : used (metaScan [⟨cps "meta", [(cps "charset", none)]⟩,
+    ⟨cps "meta", [(cps "http-equiv", some (cps "content-type")), (cps "content", some [])]⟩,
+    ⟨cps "meta", [(cps "HTTP-EQUIV", some (cps "refresh")), (cps "http-equiv", some (cps "Content-Type")), (cps "content", some (cps "A"))]⟩,
+    ⟨cps "meta", [(cps "http-equiv", some (cps "content-type")), (cps "content", some (cps "B"))]⟩]) = some (cps "a") := by decide
 
 /-- consequence of C20-xml-short at the level of `getEncodingInfo`: an application/xml response without charset and
 a document of three characters is reported as "no encoding" where the documented rule says UTF-8 (test, not theorem) -/
